@@ -24,6 +24,8 @@ LISTS = {
     'chain_obs': [['C1', 'A1'], ['D1', 'B1', 'A2'], ['A1:B2', 'C1'], ['A:A', 'B2']],
     'nested_obs': [['D1', 'A2'], ['B2', 'C1', 'B1'], ['B:B', 'D1'], ['A1:D2', 'C2']],
     'cse_obs': [['D2', 'E1'], ['D1:E2', 'A1'], ['D:D', 'D1']],
+    'cse_opq': [['D2', 'B1'], ['B1:B3', 'D3'], ['D1:D3', 'B2']],
+    'table_opq': [['B3', 'C2'], ['A2:B4', 'B2'], ['B4', 'B2', 'B3']],
 }
 
 
@@ -54,7 +56,8 @@ def expected_for(wb, oracle_vals, node):
 def job(arg):
     name, pool, settable, src, seed, perms = arg
     rnd = random.Random(seed)
-    wb = W.WORKBOOKS_OBS[name]
+    opaque = name in W.WORKBOOKS_OPAQUE     # formulas outside Engine's kinds:
+    wb = (W.WORKBOOKS_OPAQUE if opaque else W.WORKBOOKS_OBS)[name]   # observables only
     oracle = engine.Oracle(wb)
     g = engine.gen_graph(name, wb, pool, src, lists=LISTS[name], settable=settable)
     out = dict(name=name, src=src, tlc=dict(
@@ -93,7 +96,7 @@ def job(arg):
                 out['violations'].append((
                     f'evaluate({act["ns"]}) as {variant} returned {got!r}; cells of a '
                     f'from-scratch compile give {want!r} [{name}/{src}]', case))
-        if not drift:
+        if not drift and not opaque:
             diffs = engine.state_matches(g.states[t], model.project())
             if diffs:
                 drift.append(1)
@@ -147,10 +150,15 @@ def run(tier, seed):
         for name in ('chain_obs', 'nested_obs', 'cse_obs'):
             for src in ('NoData', 'Stored'):
                 jobs.append((name, [2], ['A1'], src, seed, 120))
+        jobs.append(('cse_opq', [2], ['A1'], 'NoData', seed, 120))
+        jobs.append(('table_opq', [5], ['A2'], 'NoData', seed, 120))
     else:
         for name in W.WORKBOOKS_OBS:
             for src in ('NoData', 'Stored', 'Loaded'):
                 jobs.append((name, [2], ['A1'], src, seed, 720))
+        for name in W.WORKBOOKS_OPAQUE:
+            for src in ('NoData', 'Loaded'):
+                jobs.append((name, [2, 'a'], None, src, seed, 720))
         jobs.append(('chain_obs', [None, 2], None, 'NoData', seed, 0))
         jobs.append(('cse_obs', [None, 2, 'a'], None, 'Stored', seed, 0))
     results = parallel.run_jobs(job, jobs)
